@@ -82,6 +82,16 @@ def track(prog: Dict[str, Any], seed: int, backward: bool = True, calls: Optiona
         t = track_scales(m)
         t.backends.insert(0, lambda gm, ex: (captured.append(gm), ex_inputs.append(list(ex)), gm)[-1])
         torch._dynamo.reset()
+        if calls and "other" in calls:
+            # another tracked module is created and used in between (its graph / metrics are its own)
+            oprog = {"items": [["op", "linear:nn"], ["op", "tanh"]], "first": "x", "sink": "sum"}
+            om, _ = build(oprog, seed + 5)
+            other = track_scales(om)
+            calls = [c for c in calls if c != "other"]
+            run_plain(t, inp, calls[0] == "fb")
+            run_plain(other, inputs(oprog, seed), True)
+            if other.scales_graph() is t.scales_graph():
+                raise AssertionError("two tracked modules share one scales graph")
     import dataclasses
 
     history = []
